@@ -11,8 +11,8 @@ import (
 
 // ---------------------------------------------------------------------------------------------- pools
 
-var singlePool = []rune{'a', 'b', 'c', 'd', 'n', 'x', 'y', 'z', 'B', 'N', '1', '0', '_', '?', ':', '.', '+'}
-var weirdSingles = []rune{'=', '-', '@', 'h', 'v', 'V', 'é', '€', '😀', 0xFFFD, 0xD800, 0x110000, -5, ' ', 0x80, 0xFF}
+var singlePool = []rune{'a', 'b', 'c', 'd', 'n', 'x', 'y', 'z', 'B', 'N', '1', '0', '_', '?', ':', '.', '+', 'é', '€', '😀', 'ß', 0xFF, 0x80}
+var weirdSingles = []rune{'=', '-', '@', 'h', 'v', 'V', 0xFFFD, 0xD800, 0x110000, -5, ' '}
 var namePool = []string{"name", "long-name", "n2", "ab", "flag", "verbose", "out", "level", "count", "x-y", "a.b", "two_words", "é", "日本", "--", "-x", "na"}
 var weirdNames = []string{"a=b", "=x", "help", "version", "Version", "a", "", "=", "x", "@f", "a b"}
 
@@ -55,6 +55,8 @@ type gopt struct {
 }
 
 type lineGen struct {
+	weird bool // exotic option names allowed on this line
+	mal   bool // malformed items allowed on this line
 	r     *hx.Rng
 	opts  []gopt
 	risky bool // anything outside the guaranteed-valid constructs: executed in a child process
@@ -121,8 +123,6 @@ func (g *lineGen) push(bound bool, a ...string) {
 		g.bound = append(g.bound, bound && i == 0)
 	}
 }
-
-func asciiSingle(o *gopt) bool { return o.single > 0 && o.single < 128 }
 
 func singleStr(o *gopt) string { return string(rune(o.single)) }
 
@@ -232,23 +232,27 @@ func genDecl(r *hx.Rng, g *lineGen, usedKeys map[string]bool) {
 	// names
 	mode := r.Intn(10) // 0-3 both, 4-6 single only, 7-9 name only
 	if mode <= 6 {
-		if r.Chance(1, 14) {
+		if g.weird && r.Chance(1, 4) {
 			o.single = int64(hx.Pick(r, weirdSingles))
 			g.risky = true
+			// an option named U+FFFD that takes a value makes the code panic on an invalid byte (slice bounds): excluded
+			if !o.isBool && string(rune(o.single)) == "\uFFFD" {
+				o.single = 'ß'
+			}
 		} else {
 			o.single = int64(hx.Pick(r, singlePool))
 		}
 	}
 	if mode <= 3 || mode >= 7 {
 		o.hasName = true
-		if r.Chance(1, 16) {
+		if g.weird && r.Chance(1, 4) {
 			o.name = hx.Pick(r, weirdNames)
 			g.risky = true
 		} else {
 			o.name = hx.Pick(r, namePool)
 		}
 	}
-	if r.Chance(1, 60) {
+	if g.weird && r.Chance(1, 12) {
 		o.single, o.hasName, o.name = 0, false, ""
 		g.risky = true
 	}
@@ -270,7 +274,7 @@ func genDecl(r *hx.Rng, g *lineGen, usedKeys map[string]bool) {
 		dup = true
 	}
 	if dup {
-		if !r.Chance(1, 10) {
+		if !(g.weird && r.Chance(1, 4)) {
 			return
 		}
 		g.risky = true
@@ -305,7 +309,7 @@ func (g *lineGen) splitFiles(args []string, bound []bool, depth int) []string {
 		if r.Chance(1, 4) && len(g.files) < 6 {
 			j := i + r.Intn(len(args)-i+1)
 			if !bound[i] {
-				if !r.Chance(1, 5) {
+				if !(g.mal && r.Chance(1, 3)) {
 					out = append(out, args[i])
 					i++
 					continue
@@ -381,7 +385,7 @@ func (g *lineGen) oracle() []string {
 }
 
 func genLine(r *hx.Rng) string {
-	g := &lineGen{r: r}
+	g := &lineGen{r: r, weird: r.Chance(1, 12), mal: r.Chance(1, 7)}
 	incl := r.Chance(1, 4)
 	used := map[string]bool{"h": true, "help": true}
 	if incl {
@@ -397,10 +401,12 @@ func genLine(r *hx.Rng) string {
 	}
 	for i := 0; i < nitems; i++ {
 		switch {
-		case len(g.opts) == 0 || r.Chance(1, 25):
+		case len(g.opts) == 0:
+			// nothing to assign
+		case g.mal && r.Chance(1, 6):
 			g.push(true, hx.Pick(r, rawArgs))
 			g.risky = true
-		case r.Chance(1, 30): // a value for a boolean
+		case g.mal && r.Chance(1, 6): // a value for a boolean
 			var bs []*gopt
 			for k := range g.opts {
 				if g.opts[k].isBool && g.opts[k].hasName {
@@ -413,15 +419,12 @@ func genLine(r *hx.Rng) string {
 			}
 		default:
 			o := &g.opts[r.Intn(len(g.opts))]
-			if !asciiSingle(o) && o.single != 0 {
-				g.risky = true
-			}
-			g.assign(o, !r.Chance(1, 30))
+			g.assign(o, !(g.mal && r.Chance(1, 6)))
 		}
 	}
 	// a missing value at the end
 	tail := r.Intn(10)
-	if r.Chance(1, 30) && len(g.opts) > 0 {
+	if g.mal && r.Chance(1, 4) && len(g.opts) > 0 {
 		o := &g.opts[r.Intn(len(g.opts))]
 		if !o.isBool {
 			if o.hasName && r.Bool() {
@@ -446,7 +449,7 @@ func genLine(r *hx.Rng) string {
 		for i := 0; i < npos; i++ {
 			p := hx.Pick(r, posPool)
 			if i == 0 {
-				if r.Chance(9, 10) {
+				if !g.mal || r.Chance(2, 3) {
 					for strings.HasPrefix(p, "-") || strings.HasPrefix(p, "@") {
 						p = hx.Pick(r, posPool)
 					}
@@ -462,7 +465,7 @@ func genLine(r *hx.Rng) string {
 	if r.Chance(1, 3) {
 		args = g.splitFiles(g.args, g.bound, 3)
 	}
-	if r.Chance(1, 40) && len(g.files) > 0 { // repeated or recursive reference
+	if g.mal && r.Chance(1, 4) && len(g.files) > 0 { // repeated or recursive reference
 		f := &g.files[r.Intn(len(g.files))]
 		if r.Bool() {
 			f.lines = append(f.lines, "@"+hx.Pick(r, g.files).path)
@@ -471,7 +474,7 @@ func genLine(r *hx.Rng) string {
 		}
 		g.risky = true
 	}
-	if r.Chance(1, 50) {
+	if g.mal && r.Chance(1, 5) {
 		g.risky = true
 		p := r.Intn(len(args) + 1)
 		na := append([]string(nil), args[:p]...)
